@@ -774,6 +774,58 @@ def mp_runs(chk, njobs):
     return judge(chk, 'mp', coq_cases, wants, metas)
 
 
+def many_sections(chk, nlines):
+    """ one file, very many sections: two definitions without an end, every
+    line matches the start of both.  By C03_noend_one_section_per_start each
+    must report exactly one section per line, and every section must have
+    its own id - judged directly on the implementation's output (no Coq
+    evaluation of a list this long).  Section ids that are not collision
+    free (e.g. truncated uuids) show up here as merged sections. """
+    from searchkit import FileSearcher, SearchDef, SequenceSearchDef
+    d = tempfile.mkdtemp(prefix='c03big_', dir=chk.work)
+    try:
+        path = os.path.join(d, 'big.txt')
+        with open(path, 'w', encoding='utf-8') as f:
+            f.write(''.join(f"SP {i % 997} 2 3\n" for i in range(nlines)))
+        fs = FileSearcher()
+        sds = [SequenceSearchDef(start=SearchDef(r'^\w*S\w* (\d+) \d+ \d+'),
+                                 tag='big0'),
+               SequenceSearchDef(start=SearchDef(r'^\w*P\w* (\d+) \d+ \d+'),
+                                 tag='big1')]
+        for sd in sds:
+            fs.add(sd, path)
+        results = fs.run()
+        ids = []
+        for k, sd in enumerate(sds):
+            secs = results.find_sequence_sections(sd, path)
+            ids += list(secs.keys())
+            merged = [(sid, [r.linenumber for r in rs])
+                      for sid, rs in secs.items() if len(rs) != 1]
+            lns = sorted(r.linenumber for rs in secs.values() for r in rs)
+            if len(secs) != nlines or merged or \
+                    lns != list(range(1, nlines + 1)):
+                chk.violation(
+                    'sequence-sections-differ many-sections end=0',
+                    {'big': nlines, 'definition': k,
+                     'file': f"{nlines} lines 'SP <i mod 997> 2 3'; "
+                             "definition without end: one section per line "
+                             "(C03_noend_one_section_per_start)",
+                     'sections_expected': nlines,
+                     'sections_reported': len(secs),
+                     'results_reported': len(lns),
+                     'sections_with_more_than_a_start': merged[:5]})
+        if len(set(ids)) != len(ids):
+            chk.violation('sequence-structure section id shared by two '
+                          'sections many-sections',
+                          {'big': nlines, 'ids': len(ids),
+                           'distinct_ids': len(set(ids))})
+    finally:
+        shutil.rmtree(d, ignore_errors=True)
+    chk.coverage['evaluations'] += 2
+    chk.coverage['traces_validated_against_impl'] += 1
+    chk.dist('many-sections-run(sections)', 2 * nlines)
+
+
 def run(chk):
     chk.prove(PROPS)
     t0 = time.time()
@@ -789,7 +841,9 @@ def run(chk):
         "and/or a blank line (four kinds), start/end/body parts created "
         "with store_result_contents=False, definitions reused after a run "
         "that failed mid-section with UnicodeDecodeError), multi-file "
-        "multi-process runs; an "
+        "multi-process runs, one run with 300 000 (quick) / 800 000 "
+        "(thorough) one-line sections whose number and ids are judged "
+        "directly (ids that are not collision free merge sections); an "
         "evaluation = one (definition, file) comparison of the "
         "implementation with model, spec and joint model inside Coq; "
         "non-trivial = the definition's start matches at least one line; "
@@ -800,6 +854,7 @@ def run(chk):
     n += check_cases(chk, [random_case(chk.rng) for _ in range(nrand)],
                      'rnd')
     n += mp_runs(chk, 8 if chk.quick else 30)
+    many_sections(chk, 150000 if chk.quick else 400000)
     chk.coverage['distribution']['harness_seconds'] = round(
         time.time() - t0, 1)
     chk.assumptions += [
@@ -816,7 +871,9 @@ def replay(chk, path):
         rep = json.load(f)
     w = rep.get('witness', {})
     chk.prove(PROPS)
-    if 'case' in w:
+    if 'big' in w:
+        many_sections(chk, int(w['big']))
+    elif 'case' in w:
         check_cases(chk, [w['case']], 'replay')
     elif 'job' in w:
         job = w['job']
